@@ -545,6 +545,9 @@ func ExitLiveEdges(phi *ssa.Phi) []ssa.Value {
 	return out
 }
 
+// Forwarders is the number of pure forwarders that were made transparent.
+func (p *Prog) Forwarders() int { return len(p.forward) }
+
 // IsForwarder reports whether f is a pure forwarder (see forwardTarget).
 func (p *Prog) IsForwarder(f *ssa.Function) bool { return p.forward[f] != nil }
 
